@@ -499,6 +499,15 @@ class Ellipse:
             # `isophote` instance may no longer be OK.
             isophote = isophote_list[-1]
 
+            # beyond maxrit the isophotes are extracted without being
+            # fitted, so no fit can fail: without a maxsma, stop growing
+            # when too many of the sample points fall outside of the
+            # image (the criterion that ends the iterative mode there).
+            if (not maxsma and isophote.stop_code == 4
+                    and (isophote.sample.actual_points
+                         < isophote.sample.total_points * fflag)):
+                break
+
             # update sma. If exceeded user-defined
             # maximum, bail out from this loop.
             sma = isophote.sample.geometry.update_sma(step)
